@@ -31,6 +31,8 @@ KINDS = ["dup-writer-same", "dup-writer-overlap-slice", "dup-writer-parent", "bl
          "two-blocks-one-writing-func",
          # two overlapping slices of one wire are sinks of the SAME net (the shared bits are driven twice by one writer)
          "overlapping-sinks-in-one-net",
+         # the SECOND assignment to a signal in one block uses the wrong operator (the first one is right; plain or inside an if)
+         "op-wrong-on-later-assignment",
          # a register bit selected by a SIGNAL on the left of <<= (the constant-index form is op-ilshift-slice-in-ff)
          "ff-variable-bit-index"]
 
@@ -282,6 +284,19 @@ def inject(rng, design, kind):
       if blks:
         b = rng.choice(blks); b["op"] = "=" if kind == "op-eq-in-update" else "<<="
         return d, {UB}, dict(info, block=b["name"])
+    if kind == "op-wrong-on-later-assignment":
+      cands = [(b, j) for b in cls["blocks"] if b["kind"] in ("comb", "ff") and not b.get("lambda") and not b.get("emit_stmts")
+               for j, st in enumerate(b["stmts"]) if st[0] == "=" and not st[1].get("sym")]
+      if cands:
+        b, j = rng.choice(cands)
+        st = b["stmts"][j]
+        wrong = rng.choice(["<<=", "="]) if b["kind"] == "comb" else "@="
+        bad = ["=", st[1], st[2], wrong]
+        shape = rng.choice(["plain", "in-if", "in-else"])
+        if shape == "in-if": bad = ["if", ["cmp", "eq", ["rd", st[1]], ["c", 0, None]], [bad], []]
+        elif shape == "in-else": bad = ["if", ["cmp", "eq", ["rd", st[1]], ["c", 0, None]], [["=", st[1], ["c", 1 & G.mask(st[1]["w"]), None]]], [bad]]
+        b["stmts"] = b["stmts"][:j] + [["=", st[1], ["c", 0, None]], bad] + b["stmts"][j + 1:]
+        return d, {UB} if b["kind"] == "comb" else {UF}, dict(info, block=b["name"], wrong=wrong, shape=shape, target=G.ref_text(st[1]))
     if kind == "op-imatmul-in-ff":
       blks = [b for b in cls["blocks"] if b["kind"] == "ff" and b["stmts"]]
       if blks:
